@@ -123,7 +123,7 @@ func (e c08Expr) Shape() string {
 var c08Keys = []string{"cat", "order", "band", "tags"} // "order"/"band" contain or/and on purpose
 
 // non-numeric vocabulary (init checks that none parses as a float or a boolean)
-var c08Vocab = []string{"red", "Red", "blue", "green", "light blue", "città", "north-west", "v2", "the"}
+var c08Vocab = []string{"red", "Red", "blue", "green", "light", "light blue", "città", "north-west", "v2", "the"}
 
 func init() {
 	for _, w := range c08Vocab {
@@ -323,6 +323,42 @@ func (g *c08Gen) step(ctx *vkit.Ctx, x *vexec.Exec, ix string, avoid bool) {
 			items = append(items, types.BatchObject{Id: id, Vector: g.vec(), Metadata: g.meta()})
 		}
 		x.VAddBatch(ix, items)
+	case p < 72 && len(live) > 0 && r.Chance(0.15): // overwrite through a value of another type that PRINTS the same
+		// The look-alike (a numeric- or boolean-looking string) is outside the asserted
+		// domain, so it is only a transient: it is overwritten again before anything is
+		// evaluated. What is asserted is the state after the second write.
+		id := vkit.Pick(r, live)
+		key := vkit.Pick(r, c08Keys)
+		var first, second any
+		switch r.Intn(5) {
+		case 0: // number -> its decimal string -> fresh value
+			n := g.num()
+			x.VSetMetadata(ix, id, map[string]any{key: n})
+			first, second = fmt.Sprint(n), g.value()
+		case 1: // decimal string -> that number
+			n := g.num()
+			first, second = fmt.Sprint(n), n
+		case 2: // boolean -> "true"/"false" -> fresh value
+			bv := r.Chance(0.5)
+			x.VSetMetadata(ix, id, map[string]any{key: bv})
+			first, second = fmt.Sprint(bv), g.value()
+		case 3: // "true"/"false" -> that boolean
+			bv := r.Chance(0.5)
+			first, second = fmt.Sprint(bv), bv
+		default: // one-element list -> the list of its words (lists print their elements space separated)
+			if g.noLists {
+				n := g.num()
+				first, second = fmt.Sprint(n), n
+			} else {
+				first, second = []any{"light blue"}, []any{"light", "blue"}
+				if r.Chance(0.5) {
+					first, second = second, first
+				}
+			}
+		}
+		x.VSetMetadata(ix, id, map[string]any{key: first})
+		x.VSetMetadata(ix, id, map[string]any{key: second})
+		g.note("lookalike:" + c08KindOf(first) + ">" + c08KindOf(second))
 	case p < 72 && len(live) > 0: // merge (overwrite with same / different type, new key)
 		id := vkit.Pick(r, live)
 		cur := mi.Recs[id].Meta
